@@ -314,7 +314,7 @@ class KGen:
         for fa in self.f.args:
             t = fa.type
             if isinstance(t, T.Size):
-                self.ctrl[fa.name] = rng.choice(["8", "8", "4", "16", "M", "2", "3"])
+                self.ctrl[fa.name] = rng.choice(["8", "8", "4", "16", "M", "M", "2", "3", "M - 1"])
             elif isinstance(t, (T.Index, T.Int)):
                 self.ctrl[fa.name] = rng.choice(ctrl_vars + ["1", "2"] + ([f"{ctrl_vars[0]} + 1"] if ctrl_vars else []))
             elif isinstance(t, T.Bool):
@@ -603,6 +603,7 @@ def input_valuations(cx, pj, inp):
 KIND_KEY = {
     "size": "replace:size-argument-positivity-not-checked",
     "shape": "replace:window-extent-differs-from-declared-shape",
+    "bounds": "replace:inferred-window-exceeds-caller-buffer",
     "pred": "replace:callee-assertion-not-checked",
     "stride": "replace:stride-assertion-not-checked",
 }
@@ -611,7 +612,8 @@ KIND_KEY = {
 def falsified(ans, valuations):
     """{kind: (obligation, valuation)} for obligations some valuation makes false"""
     bad = {}
-    groups = [("size", o) for o in ans["size"]] + [("shape", o) for o in ans["shape"]] + \
+    groups = [("size", o) for o in ans["size"]] + [("bounds", o) for o in ans["bounds"]] + \
+             [("shape", o) for o in ans["shape"]] + \
              [("stride" if has_stride(o) else "pred", o) for o in ans["preds"]]
     n = 0
     for env, strides in valuations:
@@ -734,16 +736,19 @@ class Checker:
         res_a = self.itp.run(pj_a, inputs) if inputs else []
         ctx.count("differential-inputs", len(inputs))
         found_input = False
+        agree = []
         for inp, rb, ra in zip(inputs, res_b, res_a):
             why = interp.compare(rb, ra)
             if why is None:
+                agree.append((inp, rb))
                 continue
             found_input = True
             err = ra.get("err")
             k2 = None
-            if err in ("assertFail", "nonPosSize"):
+            if err in ("assertFail", "nonPosSize", "oob"):
                 bad, _ = falsified(ans, input_valuations(cx, pj_b, inp))
-                kinds = [k for k in bad if (k in ("pred", "stride")) == (err == "assertFail")]
+                want = {"assertFail": ("pred", "stride"), "nonPosSize": ("size",), "oob": ("bounds",)}[err]
+                kinds = [k for k in bad if k in want]
                 if kinds:
                     for k in kinds:
                         ctx.violation(KIND_KEY[k], f"{replay['call']}: the call trips {err} where the block runs ({k} "
@@ -807,8 +812,10 @@ class Checker:
             pj_c, _ = export_ir.export(ir3)
         except export_ir.ExportError:
             return
-        res_c = self.itp.run(pj_c, inputs[:2]) if inputs else []
-        for inp, rb, rc in zip(inputs, res_b, res_c):
+        agree = agree[:2]
+        res_c = self.itp.run(pj_c, [a[0] for a in agree]) if agree else []
+        ctx.count("inline-differential-inputs", len(res_c))
+        for (inp, rb), rc in zip(agree, res_c):
             why = interp.compare(rb, rc)
             if why is not None:
                 ctx.violation("inline:after-replace-not-equivalent",
@@ -865,7 +872,7 @@ def run_case(chk, ctx, exo, cands, cname, mut, idx, replay_src=None):
 
     others = [c for c in cands if c != cname]
     tries = [("replace", cname)]
-    for c in rng.sample(others, 2):
+    for c in rng.sample(others, ctx.scale(1, 2)):
         tries.append(("replace", c))
     tries.append((rng.choice(["replace_all", "replace_all_mem", "mem_aware"]), cname))
     for op, cn in tries:
@@ -928,6 +935,7 @@ def run(ctx):
         "Check_Aliasing (checked through the alias monitor of the reference interpreter only)",
     ]
     broken = ctx.lean_obligations(["ExoModel.Props.C05"])
+    ctx.extra["t_obligations_s"] = round(ctx.elapsed(), 1)
     for b in broken:
         ctx.violation("obligation:" + b, f"proof obligation broken: {b}", {"obligation": b}, no_input=True)
 
